@@ -16,11 +16,11 @@ import (
 //
 // A program is a list of statements; each statement is a list of strings:
 //
-//	["call", <callee>, <args>]            x, err := f(args) / err = f(args) / f(args)
-//	["iferr", <calls in body>, <returns>] if err != nil { ...; return ... }
-//	["ifnil", <x>, <calls in body>, <returns>]  if x == nil { ...; return ... }
-//	["assign", <lhs>, <rhs>]              plain assignment
-//	["return", <results>]                 return statement
+//	["call", <callee>, <arg>...]              x, err := f(args) / err = f(args) / f(args)
+//	["iferr", <calls in body>, <result>...]   if err != nil { ...; return ... }
+//	["ifnil", <x>, <calls in body>, <result>...]  if x == nil { ...; return ... }
+//	["assign", <lhs>, <rhs>]                  plain assignment
+//	["return", <result>...]                   return statement
 //	["other", <kind>]                     anything else (kept so that nothing is silently dropped)
 //
 // Logging calls (receiver `log` / `rpcLog`) are dropped.
@@ -60,98 +60,298 @@ func c05IsErrCheck(e ast.Expr) bool {
 	return ok1 && ok2 && x.Name == "err" && y.Name == "nil"
 }
 
-// c05Flatten turns a statement list into the flat program described above.
-func c05Flatten(stmts []ast.Stmt) [][]string {
-	var prog [][]string
-	var walk func(s ast.Stmt)
-	callStmt := func(c *ast.CallExpr) {
-		if c05IsLog(c) {
+// c05Flat flattens statement lists into the program form described above,
+// reading semantics rather than spelling:
+//   - locals are named by the expression that defined them (`x, y, err := f()`
+//     makes x = "f#0", y = "f#1"), so renaming a local changes nothing;
+//   - a tail call `return s.helper(args)` / `s.helper(args)` to a method of the
+//     same receiver (or a plain function of the same package) that is not one of
+//     the primitives is inlined (two levels), parameters replaced by arguments;
+//   - error values (`err`, fmt.Errorf(...), errors.New(...)) are all "<err>";
+//   - logging and var declarations are dropped.
+type c05Flat struct {
+	files []*ast.File
+	recv  string            // receiver type of the function being flattened ("" = none)
+	prim  map[string]bool   // callee names that are never inlined
+	prog  [][]string
+}
+
+func c05IsIdentChar(c byte) bool {
+	return c == '_' || c >= 'a' && c <= 'z' || c >= 'A' && c <= 'Z' || c >= '0' && c <= '9'
+}
+
+// c05Subst replaces free identifiers (not selector fields) by their canonical names.
+func c05Subst(s string, env map[string]string) string {
+	var sb strings.Builder
+	for i := 0; i < len(s); {
+		if c05IsIdentChar(s[i]) && !(s[i] >= '0' && s[i] <= '9') {
+			j := i
+			for j < len(s) && c05IsIdentChar(s[j]) {
+				j++
+			}
+			w := s[i:j]
+			if v, ok := env[w]; ok && (i == 0 || s[i-1] != '.') {
+				sb.WriteString(v)
+			} else {
+				sb.WriteString(w)
+			}
+			i = j
+			continue
+		}
+		sb.WriteByte(s[i])
+		i++
+	}
+	return sb.String()
+}
+
+func c05IsErrValue(e ast.Expr) bool {
+	switch x := e.(type) {
+	case *ast.Ident:
+		return x.Name == "err"
+	case *ast.CallExpr:
+		f := exprString(x.Fun)
+		return strings.HasPrefix(f, "fmt.") || strings.HasPrefix(f, "errors.")
+	}
+	return false
+}
+
+func (f *c05Flat) summary(e ast.Expr, env map[string]string) string {
+	if c05IsErrValue(e) {
+		return "<err>"
+	}
+	switch x := e.(type) {
+	case *ast.Ident:
+		return c05Subst(x.Name, env)
+	case *ast.CallExpr:
+		return c05Subst(exprString(x.Fun), env) + "()"
+	default:
+		return c05Subst(c05OneLine(exprString(e)), env)
+	}
+}
+
+// helper returns the declaration of a same-receiver method / same-package
+// function that may be inlined.
+func (f *c05Flat) helper(c *ast.CallExpr) *ast.FuncDecl {
+	name := exprString(c.Fun)
+	if f.prim[name] {
+		return nil
+	}
+	switch x := c.Fun.(type) {
+	case *ast.Ident:
+		return findFunc(f.files, x.Name)
+	case *ast.SelectorExpr:
+		if id, ok := x.X.(*ast.Ident); ok && f.recv != "" {
+			fd := findFunc(f.files, f.recv+"."+x.Sel.Name)
+			if fd != nil && fd.Recv != nil && len(fd.Recv.List[0].Names) == 1 && id.Obj != nil {
+				return fd
+			}
+			if fd != nil && fd.Recv != nil {
+				return fd
+			}
+		}
+	}
+	return nil
+}
+
+// inline flattens the body of a helper in tail position.
+func (f *c05Flat) inline(fd *ast.FuncDecl, c *ast.CallExpr, env map[string]string, depth int) bool {
+	if fd == nil || fd.Body == nil || depth <= 0 {
+		return false
+	}
+	sub := map[string]string{}
+	if fd.Recv != nil && len(fd.Recv.List[0].Names) == 1 {
+		if sel, ok := c.Fun.(*ast.SelectorExpr); ok {
+			sub[fd.Recv.List[0].Names[0].Name] = c05Subst(exprString(sel.X), env)
+		}
+	}
+	i := 0
+	for _, fld := range fd.Type.Params.List {
+		for _, n := range fld.Names {
+			if i < len(c.Args) {
+				sub[n.Name] = c05Subst(c05OneLine(exprString(c.Args[i])), env)
+			}
+			i++
+		}
+	}
+	f.stmts(fd.Body.List, sub, depth-1)
+	return true
+}
+
+func (f *c05Flat) callStmt(c *ast.CallExpr, lhs []ast.Expr, env map[string]string) {
+	if c05IsLog(c) {
+		return
+	}
+	callee := c05Subst(exprString(c.Fun), env)
+	row := []string{"call", callee}
+	if len(c.Args) == 0 {
+		row = append(row, "")
+	}
+	for _, a := range c.Args {
+		row = append(row, c05Subst(c05OneLine(exprString(a)), env))
+	}
+	f.prog = append(f.prog, row)
+	// name the results after the call that produced them
+	for i, l := range lhs {
+		if id, ok := l.(*ast.Ident); ok && id.Name != "err" && id.Name != "_" {
+			env[id.Name] = callee + "#" + string(rune('0'+i))
+		}
+	}
+}
+
+func (f *c05Flat) stmts(list []ast.Stmt, env map[string]string, depth int) {
+	for _, s := range list {
+		f.stmt(s, env, depth)
+	}
+}
+
+func (f *c05Flat) stmt(s ast.Stmt, env map[string]string, depth int) {
+	switch x := s.(type) {
+	case *ast.AssignStmt:
+		if len(x.Rhs) == 1 {
+			if c, ok := x.Rhs[0].(*ast.CallExpr); ok {
+				f.callStmt(c, x.Lhs, env)
+				return
+			}
+		}
+		f.prog = append(f.prog, []string{"assign",
+			c05Subst(c05Join(x.Lhs, exprString), env), c05Subst(c05Join(x.Rhs, exprString), env)})
+	case *ast.ExprStmt:
+		if c, ok := x.X.(*ast.CallExpr); ok {
+			if c05IsLog(c) {
+				return
+			}
+			f.callStmt(c, nil, env)
 			return
 		}
-		prog = append(prog, []string{"call", exprString(c.Fun), c05Join(c.Args, exprString)})
-	}
-	walk = func(s ast.Stmt) {
-		switch x := s.(type) {
-		case *ast.AssignStmt:
-			if len(x.Rhs) == 1 {
-				if c, ok := x.Rhs[0].(*ast.CallExpr); ok {
-					callStmt(c)
+		f.prog = append(f.prog, []string{"other", "expr"})
+	case *ast.IfStmt:
+		if x.Init != nil {
+			f.stmt(x.Init, env, depth)
+		}
+		kind, nilOf := "iferr", ""
+		if b, ok := x.Cond.(*ast.BinaryExpr); ok && b.Op == token.EQL &&
+			(exprString(b.Y) == "nil" || exprString(b.X) == "nil") {
+			// `if batch == nil { ...; return ... }` guard
+			kind = "ifnil"
+			if exprString(b.Y) == "nil" {
+				nilOf = c05Subst(exprString(b.X), env)
+			} else {
+				nilOf = c05Subst(exprString(b.Y), env)
+			}
+		} else if !c05IsErrCheck(x.Cond) {
+			f.prog = append(f.prog, []string{"other", "if " + c05Subst(c05OneLine(exprString(x.Cond)), env)})
+			return
+		}
+		if x.Else != nil {
+			f.prog = append(f.prog, []string{"other", "if-else"})
+			return
+		}
+		var calls []string
+		rets := []string{"<no-return>"}
+		for _, b := range x.Body.List {
+			switch y := b.(type) {
+			case *ast.ExprStmt:
+				if c, ok := y.X.(*ast.CallExpr); ok && !c05IsLog(c) {
+					calls = append(calls, c05Subst(exprString(c.Fun), env))
+				}
+			case *ast.ReturnStmt:
+				rets = nil
+				for _, r := range y.Results {
+					if c, ok := r.(*ast.CallExpr); ok && !c05IsErrValue(r) {
+						calls = append(calls, c05Subst(exprString(c.Fun), env))
+					}
+					rets = append(rets, f.summary(r, env))
+				}
+			case *ast.AssignStmt:
+				// `err := fmt.Errorf(...)` builds an error value, no effect
+				if len(y.Rhs) == 1 && c05IsErrValue(y.Rhs[0]) {
+					continue
+				}
+				if len(y.Rhs) == 1 {
+					if c, ok := y.Rhs[0].(*ast.CallExpr); ok {
+						calls = append(calls, c05Subst(exprString(c.Fun), env))
+						continue
+					}
+				}
+				calls = append(calls, "<stmt>")
+			default:
+				calls = append(calls, "<stmt>")
+			}
+		}
+		row := []string{kind}
+		if kind == "ifnil" {
+			row = append(row, nilOf)
+		}
+		row = append(row, strings.Join(calls, ","))
+		f.prog = append(f.prog, append(row, rets...))
+	case *ast.ReturnStmt:
+		// tail call of an inlinable helper
+		if len(x.Results) == 1 {
+			if c, ok := x.Results[0].(*ast.CallExpr); ok {
+				if f.inline(f.helper(c), c, env, depth) {
 					return
 				}
 			}
-			prog = append(prog, []string{"assign", c05Join(x.Lhs, exprString), c05Join(x.Rhs, exprString)})
-		case *ast.ExprStmt:
-			if c, ok := x.X.(*ast.CallExpr); ok {
-				callStmt(c)
-				return
-			}
-			prog = append(prog, []string{"other", "expr"})
-		case *ast.IfStmt:
-			if x.Init != nil {
-				walk(x.Init)
-			}
-			kind := "iferr"
-			nilOf := ""
-			if b, ok := x.Cond.(*ast.BinaryExpr); ok && b.Op == token.EQL && exprString(b.Y) == "nil" {
-				// `if batch == nil { ...; return ... }` guard
-				kind, nilOf = "ifnil", exprString(b.X)
-			} else if !c05IsErrCheck(x.Cond) {
-				prog = append(prog, []string{"other", "if " + exprString(x.Cond)})
-				return
-			}
-			if x.Else != nil {
-				prog = append(prog, []string{"other", "if-else " + exprString(x.Cond)})
-				return
-			}
-			var calls []string
-			ret := "<no-return>"
-			for _, b := range x.Body.List {
-				switch y := b.(type) {
-				case *ast.ExprStmt:
-					if c, ok := y.X.(*ast.CallExpr); ok && !c05IsLog(c) {
-						calls = append(calls, exprString(c.Fun))
+		}
+		row := []string{"return"}
+		for _, r := range x.Results {
+			row = append(row, f.summary(r, env))
+		}
+		f.prog = append(f.prog, row)
+	case *ast.DeclStmt:
+		// var declarations carry no effect
+	default:
+		f.prog = append(f.prog, []string{"other", "stmt"})
+	}
+}
+
+func c05Flatten(files []*ast.File, recv string, prim []string, stmts []ast.Stmt) [][]string {
+	f := &c05Flat{files: files, recv: recv, prim: map[string]bool{}}
+	for _, p := range prim {
+		f.prim[p] = true
+	}
+	f.stmts(stmts, map[string]string{}, 2)
+	return f.prog
+}
+
+// c05CanonCmp prints a condition with canonical comparisons: `==` / `!=` with
+// sorted operands, `<` / `<=` flipped to `>` / `>=`, `!(a < b)` as `a >= b`.
+func c05CanonCmp(e ast.Expr, env map[string]string) string {
+	str := func(x ast.Expr) string { return c05Subst(c05OneLine(exprString(x)), env) }
+	switch x := e.(type) {
+	case *ast.ParenExpr:
+		return c05CanonCmp(x.X, env)
+	case *ast.UnaryExpr:
+		if x.Op == token.NOT {
+			if b, ok := x.X.(*ast.ParenExpr); ok {
+				if be, ok := b.X.(*ast.BinaryExpr); ok {
+					neg := map[token.Token]token.Token{token.LSS: token.GEQ, token.LEQ: token.GTR,
+						token.GTR: token.LEQ, token.GEQ: token.LSS, token.EQL: token.NEQ, token.NEQ: token.EQL}
+					if op, ok := neg[be.Op]; ok {
+						return c05CanonCmp(&ast.BinaryExpr{X: be.X, Op: op, Y: be.Y}, env)
 					}
-				case *ast.ReturnStmt:
-					for _, r := range y.Results {
-						if c, ok := r.(*ast.CallExpr); ok && !strings.HasPrefix(exprString(c.Fun), "fmt.") {
-							calls = append(calls, exprString(c.Fun))
-						}
-					}
-					ret = c05Join(y.Results, c05ExprSummary)
-				case *ast.AssignStmt:
-					// `err := fmt.Errorf(...)` builds an error value, no effect
-					if len(y.Rhs) == 1 {
-						if c, ok := y.Rhs[0].(*ast.CallExpr); ok {
-							f := exprString(c.Fun)
-							if strings.HasPrefix(f, "fmt.") || strings.HasPrefix(f, "errors.") {
-								continue
-							}
-							calls = append(calls, f)
-							continue
-						}
-					}
-					calls = append(calls, "<stmt>")
-				default:
-					calls = append(calls, "<stmt>")
 				}
 			}
-			if kind == "ifnil" {
-				prog = append(prog, []string{"ifnil", nilOf, strings.Join(calls, ","), ret})
-			} else {
-				prog = append(prog, []string{"iferr", strings.Join(calls, ","), ret})
+		}
+	case *ast.BinaryExpr:
+		a, b := str(x.X), str(x.Y)
+		switch x.Op {
+		case token.EQL, token.NEQ:
+			if a > b {
+				a, b = b, a
 			}
-		case *ast.ReturnStmt:
-			prog = append(prog, []string{"return", c05Join(x.Results, c05ExprSummary)})
-		case *ast.DeclStmt:
-			// var declarations carry no effect
-		default:
-			prog = append(prog, []string{"other", "stmt"})
+			return a + " " + x.Op.String() + " " + b
+		case token.LSS:
+			return b + " > " + a
+		case token.LEQ:
+			return b + " >= " + a
+		case token.GTR, token.GEQ:
+			return a + " " + x.Op.String() + " " + b
+		case token.LAND, token.LOR:
+			return c05CanonCmp(x.X, env) + " " + x.Op.String() + " " + c05CanonCmp(x.Y, env)
 		}
 	}
-	for _, s := range stmts {
-		walk(s)
-	}
-	return prog
+	return str(e)
 }
 
 // c05OneLine collapses whitespace so that a wrapped expression is one token.
@@ -182,7 +382,8 @@ func genC05Facts() {
 		fail("order.manager.BatchSign not found")
 		return
 	}
-	l.p("def batchSignProg : List (List String) := %s", c05LeanProg(c05Flatten(bs.Body.List)))
+	l.p("def batchSignProg : List (List String) := %s", c05LeanProg(c05Flatten(orderFiles, "manager",
+		[]string{"m.batchSigner.Sign", "m.batchStorer.StorePendingBatch"}, bs.Body.List)))
 
 	// --- the Sign case of handleServerMessage -------------------------
 	rootFiles := pkgFiles(".")
@@ -213,7 +414,9 @@ func genC05Facts() {
 		return
 	}
 	l.p("def handlerSignProg : List (List String) := %s",
-		c05LeanProg(c05Flatten(append(append([]ast.Stmt{}, signCase.Body...), tail...))))
+		c05LeanProg(c05Flatten(rootFiles, "rpcServer",
+			[]string{"s.sendRejectBatch", "s.sendSignBatch", "s.sendRejectUnparsedBatch", "s.sendAcceptBatch"},
+			append(append([]ast.Stmt{}, signCase.Body...), tail...))))
 
 	// --- batchSigner.Sign ----------------------------------------------
 	sg := findFunc(orderFiles, "batchSigner.Sign")
@@ -223,35 +426,118 @@ func genC05Facts() {
 		return
 	}
 	hashType, inputMatch, rawTx, versionGate, lookup, loopBreak := "", "", "", "", "", "no-break"
+	// the loop that locates the account input: in Sign itself or in a
+	// same-package helper Sign calls (parameters replaced by arguments)
+	findLoop := func(fn *ast.FuncDecl, sub map[string]string) bool {
+		found := false
+		ast.Inspect(fn, func(n ast.Node) bool {
+			rs, ok := n.(*ast.RangeStmt)
+			if !ok || c05Subst(exprString(rs.X), sub) != "batch.BatchTX.TxIn" {
+				return true
+			}
+			env := map[string]string{}
+			for k, v := range sub {
+				env[k] = v
+			}
+			if id, ok := rs.Value.(*ast.Ident); ok {
+				env[id.Name] = "in" // the name of the loop variable is immaterial
+			}
+			ast.Inspect(rs.Body, func(m ast.Node) bool {
+				if i, ok := m.(*ast.IfStmt); ok && inputMatch == "" {
+					inputMatch = c05CanonCmp(i.Cond, env)
+				}
+				if b, ok := m.(*ast.BranchStmt); ok && (b.Tok == token.BREAK) {
+					loopBreak = "break"
+				}
+				if _, ok := m.(*ast.ReturnStmt); ok {
+					loopBreak = "break" // returning from inside the loop = first match
+				}
+				return true
+			})
+			found = true
+			return false
+		})
+		return found
+	}
+	if !findLoop(sg, map[string]string{}) {
+		ast.Inspect(sg, func(n ast.Node) bool {
+			c, ok := n.(*ast.CallExpr)
+			if !ok || inputMatch != "" {
+				return true
+			}
+			var fd *ast.FuncDecl
+			switch f := c.Fun.(type) {
+			case *ast.Ident:
+				fd = findFunc(orderFiles, f.Name)
+			case *ast.SelectorExpr:
+				if id, ok := f.X.(*ast.Ident); ok && id.Name == "s" {
+					fd = findFunc(orderFiles, "batchSigner."+f.Sel.Name)
+				}
+			}
+			if fd == nil || fd.Body == nil || fd == sg {
+				return true
+			}
+			sub := map[string]string{}
+			i := 0
+			for _, fld := range fd.Type.Params.List {
+				for _, nm := range fld.Names {
+					if i < len(c.Args) {
+						sub[nm.Name] = c05OneLine(exprString(c.Args[i]))
+					}
+					i++
+				}
+			}
+			findLoop(fd, sub)
+			return true
+		})
+	}
+	// follow a local to the expression that defined it (one level)
+	defOf := func(e ast.Expr) ast.Expr {
+		id, ok := e.(*ast.Ident)
+		if !ok {
+			return e
+		}
+		var def ast.Expr
+		ast.Inspect(sg, func(n ast.Node) bool {
+			switch x := n.(type) {
+			case *ast.AssignStmt:
+				for i, l := range x.Lhs {
+					if li, ok := l.(*ast.Ident); ok && li.Name == id.Name && len(x.Rhs) == len(x.Lhs) {
+						def = x.Rhs[i]
+					}
+				}
+			case *ast.ValueSpec:
+				for i, nm := range x.Names {
+					if nm.Name == id.Name && i < len(x.Values) {
+						def = x.Values[i]
+					}
+				}
+			}
+			return true
+		})
+		if def != nil {
+			return def
+		}
+		return e
+	}
 	ast.Inspect(sg, func(n ast.Node) bool {
 		switch x := n.(type) {
 		case *ast.KeyValueExpr:
 			if k, ok := x.Key.(*ast.Ident); ok && k.Name == "HashType" {
-				hashType = exprString(x.Value)
+				hashType = exprString(defOf(x.Value))
 			}
 		case *ast.CallExpr:
 			switch exprString(x.Fun) {
 			case "s.signer.SignOutputRaw":
 				if len(x.Args) >= 2 {
-					rawTx = exprString(x.Args[1])
+					rawTx = exprString(defOf(x.Args[1]))
 				}
 			case "s.getAccount":
 				lookup = c05Join(x.Args, exprString)
 			}
-		case *ast.RangeStmt:
-			if exprString(x.X) == "batch.BatchTX.TxIn" {
-				ast.Inspect(x.Body, func(m ast.Node) bool {
-					if i, ok := m.(*ast.IfStmt); ok {
-						inputMatch = exprString(i.Cond)
-					}
-					if b, ok := m.(*ast.BranchStmt); ok && b.Tok == token.BREAK {
-						loopBreak = "break"
-					}
-					return true
-				})
-			}
 		case *ast.IfStmt:
-			if c := exprString(x.Cond); strings.HasPrefix(c, "acct.Version") {
+			c := c05CanonCmp(x.Cond, nil)
+			if strings.Contains(c, "acct.Version") && strings.Contains(c, "account.Version") {
 				versionGate = c
 			}
 		}
@@ -302,9 +588,22 @@ func genC05Facts() {
 			if len(fd.Body.List) == 1 {
 				if rs, ok := fd.Body.List[0].(*ast.ReturnStmt); ok && len(rs.Results) == 1 {
 					if fl, ok := rs.Results[0].(*ast.FuncLit); ok {
+						// parameter names are immaterial: the closure's
+						// account is `account`, the constructor's argument `arg`
+						env := map[string]string{}
+						for _, fld := range fd.Type.Params.List {
+							for _, nm := range fld.Names {
+								env[nm.Name] = "arg"
+							}
+						}
+						for _, fld := range fl.Type.Params.List {
+							for _, nm := range fld.Names {
+								env[nm.Name] = "account"
+							}
+						}
 						body = nil
 						for _, st := range fl.Body.List {
-							body = append(body, c05StmtString(st))
+							body = append(body, c05Subst(c05StmtString(st), env))
 						}
 					}
 				}
@@ -324,6 +623,7 @@ func genC05Facts() {
 	// conditional ones with their condition, and the ones after the switch
 	var recreated, closed, common []string
 	var recreatedCond []string
+	storerEnv := map[string]string{}
 	collect := func(stmts []ast.Stmt, uncond *[]string, cond *[]string) {
 		for _, s := range stmts {
 			switch x := s.(type) {
@@ -332,7 +632,7 @@ func genC05Facts() {
 					if c, ok := x.Rhs[0].(*ast.CallExpr); ok && exprString(c.Fun) == "append" && len(c.Args) > 1 &&
 						exprString(c.Args[0]) == "modifiers" {
 						for _, a := range c.Args[1:] {
-							*uncond = append(*uncond, c05OneLine(exprString(a)))
+							*uncond = append(*uncond, c05Subst(c05OneLine(exprString(a)), storerEnv))
 						}
 					}
 				}
@@ -350,14 +650,14 @@ func genC05Facts() {
 						if as, ok := s2.(*ast.AssignStmt); ok && len(as.Rhs) == 1 {
 							if c, ok := as.Rhs[0].(*ast.CallExpr); ok && exprString(c.Fun) == "append" {
 								for _, a := range c.Args[1:] {
-									inner = append(inner, c05OneLine(exprString(a)))
+									inner = append(inner, c05Subst(c05OneLine(exprString(a)), storerEnv))
 								}
 							}
 						}
 					}
 				}
 				collectInner(x.Body.List)
-				*cond = append(*cond, "(\""+c05OneLine(exprString(x.Cond))+"\", "+leanStrList(inner)+")")
+				*cond = append(*cond, "(\""+c05CanonCmp(x.Cond, storerEnv)+"\", "+leanStrList(inner)+")")
 			}
 		}
 	}
@@ -366,8 +666,21 @@ func genC05Facts() {
 		if !ok || exprString(rs.X) != "batch.AccountDiffs" {
 			return true
 		}
+		if id, ok := rs.Value.(*ast.Ident); ok {
+			storerEnv[id.Name] = "diff"
+		}
 		for _, s := range rs.Body.List {
-			if sw, ok := s.(*ast.SwitchStmt); ok && exprString(sw.Tag) == "diff.EndingState" {
+			if as, ok := s.(*ast.AssignStmt); ok && len(as.Rhs) == 1 && len(as.Lhs) >= 1 {
+				if c, ok := as.Rhs[0].(*ast.CallExpr); ok && exprString(c.Fun) == "s.getAccount" {
+					if id, ok := as.Lhs[0].(*ast.Ident); ok {
+						storerEnv[id.Name] = "acct"
+					}
+				}
+			}
+		}
+		for _, s := range rs.Body.List {
+			if sw, ok := s.(*ast.SwitchStmt); ok && sw.Tag != nil &&
+				c05Subst(exprString(sw.Tag), storerEnv) == "diff.EndingState" {
 				for _, c := range sw.Body.List {
 					cc := c.(*ast.CaseClause)
 					names := c05Join(cc.List, exprString)
